@@ -105,15 +105,7 @@ def run(ctx):
 
     run_posctl(ctx, "E4.id-table", "u8-tables")
     F.check_order_insensitive(ctx, "E4.set-order", P, ("SecretKey<C>::combine", "Signature<C>::from_shares", "PublicKey<C>::from_shares", "SignCryptDecryptionKey<C>::from_shares", "ElGamalDecryptionKey<C>::from_shares", "BlsSignatureCore::core_combine_signature_shares", "BlsSignatureCore::core_combine_public_key_shares"))
-    # core combiners forward their slice unmodified
-    for fk in ("BlsSignatureCore::core_combine_signature_shares", "BlsSignatureCore::core_combine_public_key_shares"):
-        f = ctx.need_fn("E6.combine", fk)
-        if f is None:
-            continue
-        ev = evaluate(f)
-        sites = [s for s in ev.sites.values() if s.callee[0] == "vsss_rs::combine_shares_group"]
-        ok = bool(sites) and F.projection_root(strip_sites(sites[0].args[0])) is not None and F.projection_root(strip_sites(sites[0].args[0]))[0].a[1] == "shares"
-        ctx.ob("E6.combine", fk, ok, "combine_shares_group(shares) receives the slice unmodified", where=where(f))
+    F.check_core_combiners(ctx, "E6.combine", P)
     # c. from_shares guard + variant
     fk = "Signature<C>::from_shares"
     f = P.fns.get(fk)
@@ -196,6 +188,24 @@ def run(ctx):
                 id_ok = True
         vm = [s for s in ev.sites.values() if s.callee[0] == "Share::value_mut"]
         val_ok = bool(vm) and val_pred(strip_sites(vm[0].args[1])) and any(s.op == "call" and B.cname(s) == "GroupEncoding::to_bytes" for s in subterms(vm[0].args[1]))
+        if val_ok and fk != "BlsSignatureCore::core_partial_sign":
+            # the encoded point is exactly base * scalar-of-the-share (polynomial normal form: no extra term, sign or factor)
+            from ..core import poly as PL
+
+            tb = [s for s in subterms(strip_sites(vm[0].args[1])) if s.op == "call" and B.cname(s) == "GroupEncoding::to_bytes"]
+            base_name = "generator" if "generator" in fk else "u"
+
+            def _at(t):
+                if t.op == "param":
+                    return t.a[1]
+                y = t
+                if y.op == "field" and y.a[1] == "0" and y.a[0].op == "downcast":
+                    y = B.peel(y.a[0].a[0])
+                if y.op == "call" and B.cname(y) == "Share::as_field_element" and F.projection_root(y.a[1][0]) is not None:
+                    return "fe"
+                return None
+
+            val_ok = len(tb) == 1 and PL.named(PL.poly(tb[0].a[1][0], _at)) == {tuple(sorted((base_name, "fe"))): 1}
         fe = [s for s in ev.sites.values() if s.callee[0] == "Share::as_field_element"]
         fe_ok = bool(fe) and F.projection_root(strip_sites(fe[0].args[0])) is not None
         ctx.ob("E6.share", fk, id_ok and val_ok and fe_ok, "produced share: identifier := identifier(secret share) [%s]; value := %s [%s]; scalar from the secret share via as_field_element [%s]" % (id_ok, desc, val_ok, fe_ok), where=where(f))
